@@ -6,7 +6,7 @@ from core import Result
 import proto, gen, implutil
 
 THEOREMS = ['C05_ampcons', 'C05_ampcons_dir', 'C05_ampcons_dir_both', 'C05_flank_sequence', 'C05_ampcons_range', 'C05_ampcons_clamped', 'C05_empty_table', 'C05_percons', 'C05_ratio_range',
-            'C05_mono_steps', 'C05_mono_range', 'C05_rank', 'C05_rank_range', 'C05_rank_order']
+            'C05_mono_steps', 'C05_mono_range', 'C05_rank', 'C05_rank_undefined', 'C05_rank_range', 'C05_rank_order']
 RULE = ("(a) synthetic tables: rise / decay voltages over small integers incl. 0 and negatives (NaN, -inf, clamp, ratios > 1), periods, volt_amp with ties, both "
         "centrings, directions both/next/last, n = 0..12; (b) tables from compute_features(burst_method='cycles') on generated signals (tie-rich quantised / clipped / "
         "plateau families included), both centrings, row labels 0..n-1 / offset (a cut table) / reversed (positions, not labels, define neighbours): amp_fraction, amp_consistency, period_consistency, monotonicity columns vs the Lean model and the centring-free "
@@ -33,7 +33,9 @@ def _wrap(f):
     try:
         with warnings.catch_warnings():
             warnings.simplefilter('ignore')
-            a = [float(x) for x in f()]; b = [float(x) for x in f()]      # the same table / signal again
+            a = [float(x) for x in f()]
+            with np.errstate(all='raise'):      # the same table / signal again, now inside a caller's strict floating-point error state
+                b = [float(x) for x in f()]
             if not all((u != u and v != v) or u == v for u, v in zip(a, b)) or len(a) != len(b):
                 return ['err', 'SecondCallDiffers']
             return ['ok', a]
@@ -60,7 +62,8 @@ def generate(ctx):
         vals = [0, 0, 1, 1, 2, 3, 5, -1, -2] if rng.random() < 0.5 else [1, 2, 3, 4, 6]
         cases.append(dict(kind='table', pc=bool(rng.integers(2)), rises=[int(x) for x in rng.choice(vals, size=n)],
                           decays=[int(x) for x in rng.choice(vals, size=n)], periods=[int(x) for x in rng.integers(1, 9, size=n)],
-                          amps=[int(x) for x in rng.integers(0, 4, size=n)], lab=int(rng.choice([0, 0, 1, 2]))))
+                          amps=[int(x) for x in rng.integers(0, 4, size=n)], lab=int(rng.choice([0, 0, 1, 2])),
+                          nan=([int(x) for x in rng.choice(n, size=min(n, int(rng.integers(1, 3))), replace=False)] if (n >= 2 and rng.random() < 0.2) else [])))     # rows whose amplitude is undefined
     fams = ['quantised', 'clipped', 'plateau', 'zeroed', 'bursty', 'noise', 'sum', 'asym', 'sine', 'chirp', 'dc', 'scaled']
     for i in range(ctx.scale(100, 1000)):
         s = gen.make_signal(ctx.sub_rng(i), family=fams[i % len(fams)])
@@ -86,6 +89,8 @@ def evaluate(ctx, cases):
             df = pd.DataFrame({'volt_rise': np.array(c['rises'], float), 'volt_decay': np.array(c['decays'], float),
                                'period': np.array(c['periods'], float), 'volt_amp': np.array(c['amps'], float),
                                ('sample_peak' if c['pc'] else 'sample_trough'): np.zeros(len(c['rises']), int)})
+            for i in c.get('nan', []):
+                df.loc[i, 'volt_amp'] = np.nan
             df = _relabel(df, c.get('lab', 0))
             pc, sig, x = c['pc'], None, None
         else:
